@@ -19,16 +19,40 @@ pub const BASE_SECS: u64 = 1_000_000_000;
 
 /// A clock owned by the harness: nanoseconds since the epoch in an atomic. Never reads the wall clock.
 #[derive(Clone)]
-pub struct HClock(pub Arc<AtomicU64>);
+pub struct HClock(pub Arc<AtomicU64>, Arc<AtomicU64>, Arc<AtomicU64>);
 
 impl HClock {
-    pub fn new(start_ns: u64) -> Self { HClock(Arc::new(AtomicU64::new(start_ns))) }
+    pub fn new(start_ns: u64) -> Self { HClock(Arc::new(AtomicU64::new(start_ns)), Arc::new(AtomicU64::new(u64::MAX)), Arc::new(AtomicU64::new(0))) }
     pub fn set(&self, ns: u64) { self.0.store(ns, Ordering::SeqCst); }
     pub fn get(&self) -> u64 { self.0.load(Ordering::SeqCst) }
+
+    /// Arms a jump in the middle of an operation: the reading number `after_reads` (0 = the next one) still returns the
+    /// current time, every later reading returns the time advanced by `jump_ns`. Real clocks move between two readings
+    /// of one operation; this makes that moment a generated input.
+    pub fn arm_jump(&self, after_reads: u64, jump_ns: u64) {
+        self.2.store(jump_ns, Ordering::SeqCst);
+        self.1.store(after_reads, Ordering::SeqCst);
+    }
+
+    /// Disarms; returns true if the armed jump has happened.
+    pub fn disarm(&self) -> bool { self.1.swap(u64::MAX, Ordering::SeqCst) == u64::MAX }
 }
 
 impl Clock for HClock {
-    fn now(&self) -> SystemTime { UNIX_EPOCH + Duration::from_nanos(self.0.load(Ordering::SeqCst)) }
+    fn now(&self) -> SystemTime {
+        let value = self.0.load(Ordering::SeqCst);
+        if self.1.load(Ordering::SeqCst) != u64::MAX {
+            let remaining = self.1.fetch_sub(1, Ordering::SeqCst);
+            if remaining == 0 {
+                self.1.store(u64::MAX, Ordering::SeqCst);
+                self.0.fetch_add(self.2.load(Ordering::SeqCst), Ordering::SeqCst);
+            } else if remaining == u64::MAX {
+                // lost a race with disarm: undo
+                self.1.store(u64::MAX, Ordering::SeqCst);
+            }
+        }
+        UNIX_EPOCH + Duration::from_nanos(value)
+    }
 }
 
 pub fn since_epoch(time: SystemTime) -> Duration { time.duration_since(UNIX_EPOCH).expect("before epoch") }
